@@ -24,7 +24,7 @@ core.setup_repo_path()
 ID = 'C17'
 LEVEL = 'model_checking'
 RULE = ('states = multiset of (job, diagnostics) already executed in the interpreter + class-level state (EconomicObject.ID, Logger handles); '
-        'transitions = one job; all sequences of length <= 2 over 16 jobs x 4 diagnostics settings (none, logging, tracing, logging+tracing+registered functions), and of length 3 (quick) / 4 (thorough) over a '
+        'transitions = one job; all sequences of length <= 2 over 18 jobs x 3 diagnostics settings (none, logging, logging+tracing+registered functions), and of length 3 (quick) / 4 (thorough) over a '
         'reduced alphabet; oracle: series (keys and values, ==) equal to the fresh-process baseline of that job; a re-parsed solver reports '
         'exactly the new block; non-trivial = sequences in which a job runs after another job or under a diagnostics setting')
 ASSUMPTIONS = [
@@ -38,10 +38,11 @@ B2 = 'p = .5*q + 2\nq = .5*p + t\nr = p\nMaxTime = 2'
 B3 = 'z = .5*LAG_z + 5.5\nLAG_z = z(k-1)\nz(0) = 2.\nMaxTime = 4'
 B4 = 'x = f(y) + 1\ny = .25*x\nMaxTime = 2'
 B5 = 'x = .5*x + 3\nw = x + 1\nMaxTime = 2'     # only names that B1 also uses
+B6 = 'p = f(q)\nq = .25*p + 2\nMaxTime = 2'      # registers ANOTHER function under the name f
 
-JOBS = ['M1', 'M2', 'M3', 'B1', 'B1nr', 'B2', 'B2nr', 'B3ss', 'B4f', 'B5', 'B5nr', 'RESOLVE', 'REPARSE-B2', 'REPARSE-B1', 'REPARSE-B5', 'IDLE50']
-DIAGS = ['none', 'log', 'trace', 'all']
-REDUCED_JOBS = ['M2', 'B1nr', 'B3ss', 'RESOLVE', 'REPARSE-B5', 'IDLE50']
+JOBS = ['M1', 'M2', 'M3', 'B1', 'B1nr', 'B2', 'B2nr', 'B3ss', 'B4f', 'B5', 'B5nr', 'B6g', 'RESOLVE', 'RESOLVE-B4f', 'REPARSE-B2', 'REPARSE-B1', 'REPARSE-B5', 'IDLE50']
+DIAGS = ['none', 'log', 'all']
+REDUCED_JOBS = ['M2', 'B3ss', 'B4f', 'B6g', 'RESOLVE-B4f', 'REPARSE-B5', 'IDLE50']
 REDUCED_DIAGS = ['none', 'all']
 
 
@@ -49,11 +50,16 @@ def fun(v):
     return 0.5 * v + 1.0
 
 
+def fun2(v):
+    return 0.25 * v - 3.0
+
+
 class Ctx(object):
     def __init__(self):
         self.prev = None       # previous solver object
         self.prev_job = None
         self.logdir = None
+        self.b4f = None        # the solver of the first B4f job (re-solved later by RESOLVE-B4f)
 
 
 def setup_diag(diag, ctx):
@@ -70,12 +76,17 @@ def apply_solver_diag(s, diag):
     if diag in ('trace', 'all'):
         s.TraceStep = 1
     if diag in ('func', 'all'):
-        s.AddFunction('f', fun)
+        s.AddFunction('dbgf', fun)
         s.AddFunction('unused', lambda v: v)
 
 
 def series_of(s):
-    return dict((k, list(v)) for k, v in s.TimeSeries.items())
+    out = dict((k, list(v)) for k, v in s.TimeSeries.items())
+    if s.ParameterSolveInitialSteadyState:
+        # the stored steady-state search is part of the results (Model.GetTimeSeries(group_of_series='initial'))
+        for k, v in s.TimeSeriesInitialSteadyState.items():
+            out['initial:' + k] = list(v)
+    return out
 
 
 def run_job(job, diag, ctx):
@@ -116,16 +127,20 @@ def run_job(job, diag, ctx):
         ctx.prev = m.EquationSolver
         ctx.prev_job = job
         return series_of(m.EquationSolver)
-    if job in ('B1', 'B1nr', 'B2', 'B2nr', 'B3ss', 'B4f', 'B5', 'B5nr'):
-        text = {'B1': B1, 'B1nr': B1, 'B2': B2, 'B2nr': B2, 'B3ss': B3, 'B4f': B4, 'B5': B5, 'B5nr': B5}[job]
+    if job in ('B1', 'B1nr', 'B2', 'B2nr', 'B3ss', 'B4f', 'B5', 'B5nr', 'B6g'):
+        text = {'B1': B1, 'B1nr': B1, 'B2': B2, 'B2nr': B2, 'B3ss': B3, 'B4f': B4, 'B5': B5, 'B5nr': B5, 'B6g': B6}[job]
         try:
             s = EquationSolver(text, run_equation_reduction=not job.endswith('nr'))
             if job == 'B3ss':
                 s.ParameterSolveInitialSteadyState = True
                 s.ParameterInitialSteadyStateMaxTime = 80
+            apply_solver_diag(s, diag)
             if job == 'B4f':
                 s.AddFunction('f', fun)
-            apply_solver_diag(s, diag)
+                if ctx.b4f is None:
+                    ctx.b4f = s
+            if job == 'B6g':
+                s.AddFunction('f', fun2)
             s.SolveEquation()
         except Exception as e:
             ctx.prev = None
@@ -133,6 +148,14 @@ def run_job(job, diag, ctx):
         ctx.prev = s
         ctx.prev_job = job
         return series_of(s)
+    if job == 'RESOLVE-B4f':
+        if ctx.b4f is None:
+            return None
+        try:
+            ctx.b4f.SolveEquation()
+        except Exception as e:
+            return ('as', 'B4f', 'raised:' + type(e).__name__)
+        return ('as', 'B4f', series_of(ctx.b4f))
     if job == 'RESOLVE':
         if ctx.prev is None:
             return None
@@ -148,6 +171,8 @@ def run_job(job, diag, ctx):
         target = job.split('-')[1]
         text = {'B1': B1, 'B2': B2, 'B5': B5}[target]
         target_job = target if ctx.prev.RunEquationReduction else target + 'nr'
+        if ctx.prev is ctx.b4f:
+            ctx.b4f = None        # that solver now holds another block
         try:
             ctx.prev.ParameterSolveInitialSteadyState = False
             ctx.prev.MaxTime = None
@@ -166,7 +191,7 @@ def run_job(job, diag, ctx):
 def compute_baselines():
     out = {}
     for job in JOBS:
-        if job in ('RESOLVE', 'IDLE50') or job.startswith('REPARSE'):
+        if job.startswith('RESOLVE') or job == 'IDLE50' or job.startswith('REPARSE'):
             continue
         ctx = Ctx()
         # each baseline in its own interpreter would be ideal; a fresh Ctx in a fresh process per call of this function
@@ -187,7 +212,7 @@ def baseline_from_fresh_process(job):
 
 def all_baselines():
     """Two fresh interpreters per job (all started at once), results must be identical."""
-    jobs = [j for j in JOBS if not (j in ('RESOLVE', 'IDLE50') or j.startswith('REPARSE'))]
+    jobs = [j for j in JOBS if not (j.startswith('RESOLVE') or j == 'IDLE50' or j.startswith('REPARSE'))]
     procs = []
     for job in jobs:
         for rep in (0, 1):
@@ -227,7 +252,7 @@ def compare(job, diag, got, base, case):
             return core.violation('outcome-differs:%s:%s' % (job, diag), 'job %s under %s: %r, baseline %r' % (job, diag, got if isinstance(got, str) else 'series', want if isinstance(want, str) else 'series'), case)
         return None
     if diag in ('func', 'all'):
-        got = dict((k, v) for k, v in got.items() if k not in ('f', 'unused'))
+        got = dict((k, v) for k, v in got.items() if k not in ('f', 'dbgf', 'unused'))
     if set(got) != set(want):
         extra = sorted(set(got) ^ set(want))
         key = 'remnants-after-reparse' if job.startswith('REPARSE') else 'variables-differ'
